@@ -32,6 +32,7 @@ type Solver struct {
 	dead    bool
 	tactic    string
 	tacticOff bool
+	stateless bool
 	// log of everything sent inside the current path scope (for portfolio fallback)
 	log []string
 }
@@ -158,6 +159,12 @@ func (s *Solver) Check(extra string, vars []string) (CheckResult, map[string]str
 	if s.dead {
 		atomic.AddInt64(&gstats.Errors, 1)
 		return RUnknown, nil
+	}
+	if s.stateless {
+		// real-arithmetic contexts: z3's incremental core degrades badly on mixed Int/Real goals that a
+		// fresh process decides in milliseconds, so every query runs on a fresh solver fed with the
+		// logged script of the current path
+		return oneShotQuiet(s.kind, s.log, extra, vars, s.timeout)
 	}
 	if extra != "" {
 		s.raw("(push 1)")
@@ -330,5 +337,21 @@ func oneShot(kind SolverKind, script []string, extra string, vars []string, time
 		s.raw(l)
 	}
 	atomic.AddInt64(&gstats.Fallbacks, 1)
+	return s.Check(extra, vars)
+}
+
+func oneShotQuiet(kind SolverKind, script []string, extra string, vars []string, timeoutMs int) (CheckResult, map[string]string) {
+	s, err := startSolver(kind, timeoutMs)
+	if err != nil {
+		return RUnknown, nil
+	}
+	defer s.Close()
+	s.tacticOff = true
+	for _, l := range script {
+		if l == "(push 1)" || l == "(pop 1)" {
+			continue
+		}
+		s.raw(l)
+	}
 	return s.Check(extra, vars)
 }
